@@ -28,7 +28,8 @@ std::string mb::nodeTypeName(const mb::Model& M, int bi) {
     return vdemangle(typeid(n).name());
 }
 
-static const double TOL = 1e-11;       // kinematics; dynamics: TOL * cond(M).  Calibration in notes/C06.md
+static const double TOL = 1e-11;       // kinematics (worst on the unchanged tree 4e-15).  Calibration in notes/C06.md
+static const double TOL_DYN = 1e-10;   // accelerations, udot, qdotdot, reactions: TOL_DYN * cond(M) (worst scaled residual 1.6e-13)
 static const double TOL_FD = 1e-7;     // finite-difference oracle (qdot-implied motion)
 
 // ---------------------------------------------------------------- loads (Ground-frame vectors are rotated by R_rel in T4)
@@ -73,7 +74,9 @@ static void compareSnaps(verif::Run& run, const std::string& what, const std::st
                          bool sameSpeeds, const std::function<std::string()>& where, const std::function<std::string()>& rep) {
     const int nb = (int)a.X.size();
     const Rotation& R = X_rel.R();
-    double eR = 0, eP = 0, eV = 0, eA = 0, eF = 0, sP = 1, sV = 1e-2, sA = 1e-2, sF = 1e-2;
+    // every model carries >= 12 N of weight (lightest body 1.3 kg, |g| = 9.26): a transmitted reaction cannot be more accurate
+    // than eps x that, even when the reaction itself is ~0 (Free joints), hence the floor of 10 on the reaction scale
+    double eR = 0, eP = 0, eV = 0, eA = 0, eF = 0, sP = 1, sV = 1e-2, sA = 1e-2, sF = 10;
     for (int i = 0; i < nb; ++i) {
         sP = std::max(sP, a.X[i].p().norm()); sV = std::max(sV, sv(a.V[i])); sA = std::max(sA, sv(a.A[i])); sF = std::max(sF, sv(a.FM[i]));
     }
@@ -91,8 +94,8 @@ static void compareSnaps(verif::Run& run, const std::string& what, const std::st
     run.residual(what + "-pose-rotation", eR, TOL, where, rep, suffix);
     run.residual(what + "-pose-position", eP, TOL, where, rep, suffix);
     run.residual(what + "-velocity", eV, TOL, where, rep, suffix);
-    run.residual(what + "-acceleration", eA / cond, TOL, where, rep, suffix);
-    run.residual(what + "-reaction", eF / cond, TOL, where, rep, suffix);
+    run.residual(what + "-acceleration", eA / cond, TOL_DYN, where, rep, suffix);
+    run.residual(what + "-reaction", eF / cond, TOL_DYN, where, rep, suffix);
     run.residual(what + "-kineticEnergy", std::abs(a.ke - b.ke) / std::max<Real>(std::abs(a.ke), 1e-4), TOL, where, rep, suffix);
     if (sameSpeeds) {
         double eu = 0, ed = 0, su = 1e-2, sd = 1e-2;
@@ -102,7 +105,7 @@ static void compareSnaps(verif::Run& run, const std::string& what, const std::st
             for (int i = 0; i < a.u.size(); ++i) { su = std::max(su, std::abs(a.u[i])); sd = std::max(sd, std::abs(a.udot[i])); }
             for (int i = 0; i < a.u.size(); ++i) { eu = std::max(eu, std::abs(a.u[i] - b.u[i]) / su); ed = std::max(ed, std::abs(a.udot[i] - b.udot[i]) / sd); }
             run.residual(what + "-u", eu, TOL, where, rep, suffix);
-            run.residual(what + "-udot", ed / cond, TOL, where, rep, suffix);
+            run.residual(what + "-udot", ed / cond, TOL_DYN, where, rep, suffix);
         }
     }
     if (run.verbose) printf("  [%s/%s] eR=%.3g eP=%.3g eV=%.3g eA=%.3g eF=%.3g cond=%.3g | sV=%.3g sA=%.3g sF=%.3g KE=%.15g vs %.15g\n", what.c_str(), suffix.c_str(), eR, eP, eV, eA, eF, cond, sV, sA, sF, a.ke, b.ke);
@@ -151,7 +154,7 @@ static void checkQuatEuler(verif::Run& run, const std::vector<mb::BodySpec>& spe
     // violation keys name the quaternion-capable kinds present, so a defect of one kind cannot mask another
     std::string qk; for (auto& b : specs) if (mb::kindHasQuaternion(b.kind) && qk.find(kd(b)) == std::string::npos) qk += (qk.empty() ? "" : "+") + kd(b);
     if (qk.empty()) qk = "none";
-    std::string lineKinds; for (auto& b : specs) if (b.kind == mb::KLineOrientation && lineKinds.find(kd(b)) == std::string::npos) lineKinds += (lineKinds.empty() ? "" : "+") + kd(b);
+    std::string lineKinds; for (auto& b : specs) if (b.kind == mb::KLineOrientation) lineKinds = "LineOrientation";
     auto speedsAndTimeKept = [&](const State& from, State& to, const std::string& dn) {
         int nZeroed = 0, nStray = 0; const bool sameNU = to.getNU() == from.getNU();
         if (sameNU) for (int i = 0; i < from.getNU(); ++i) if (to.getU()[i] != from.getU()[i]) { if (to.getU()[i] == 0) nZeroed++; else nStray++; }
@@ -221,7 +224,7 @@ static void checkMirror(verif::Run& run, const std::vector<mb::BodySpec>& specs,
     run.residual("T2-mirror-vs-builtin-qdot", e / sc, TOL, where, rep, kd(specs[vi]));
     e = 0; sc = 1e-2; const Vector& qda = sa.getQDotDot(); const Vector& qdb = sb.getQDotDot();
     for (int i = 0; i < qda.size(); ++i) { sc = std::max(sc, std::abs(qdb[i])); e = std::max(e, std::abs(qda[i] - qdb[i])); }
-    run.residual("T2-mirror-vs-builtin-qdotdot", e / sc / std::max(pa.cond, pb.cond), TOL, where, rep, kd(specs[vi]));
+    run.residual("T2-mirror-vs-builtin-qdotdot", e / sc / std::max(pa.cond, pb.cond), TOL_DYN, where, rep, kd(specs[vi]));
 }
 
 // ---------------------------------------------------------------- T3: reversed vs forward
@@ -283,13 +286,14 @@ int main(int argc, char** argv) {
     verif::Run run("C06", argc, argv);
     run.setDeadline(400, 2400);
     const bool th = run.thorough();
-    run.rule = "E3 over pairs: level A models (every KINDxDIRxFRAMES variant as base/middle/tip/fork-branch of a 3-body tree with companions {Pin,Ball,Free}^2; thorough adds level B for T1 and T4) x STATE(4) x four transformations: T1 quat<->euler conversion in both directions incl. round trip and identity conversion (all models); T2 Custom/FunctionBased mirror vs built-in (variants CustomPin, CustomBall, CustomTranslation, FBPin fwd/rev, FBPlanar fwd/rev) x COORD; T3 reversed vs forward through setQToFitTransform/setUToFitVelocity (variants with symmetric motion family: Pin, Slider, Cylinder, Planar, Gimbal, Bushing, Ball, Free, Translation, Screw) x COORD; T4 base inboard frame moved by {translation, rotation, both} x COORD; value set = seed%3 (thorough: all 3, and all 3 mass kinds). distinct = distinct (transformation, model, coord, state, valueset); non-trivial = the pair really differs (T1: a quaternion-capable body is present)";
+    run.rule = "E3 over pairs: level A models (every KINDxDIRxFRAMES variant as base/middle/tip/fork-branch of a 3-body tree with companions {Pin,Ball,Free}^2; thorough adds level B for T1 and T4) x STATE(4) x four transformations: T1 quat<->euler conversion in both directions incl. round trip and identity conversion (all models); T2 Custom/FunctionBased mirror vs built-in (variants CustomPin, CustomBall, CustomTranslation, FBPin fwd/rev, FBPlanar fwd/rev) x COORD; T3 reversed vs forward through setQToFitTransform/setUToFitVelocity (variants with symmetric motion family: Pin, Slider, Cylinder, Planar, Gimbal, Bushing, Ball, Free, Translation, Screw) x COORD; T4 base inboard frame moved by {translation, rotation, both} x COORD; value set = seed%3 (thorough: all 3, the variant's mass kind rotating with it). distinct = distinct (transformation, model, coord, state, valueset); non-trivial = the pair really differs (T1: a quaternion-capable body is present)";
     run.assumptions = {"continuous values only from the fixed tables in engine/models.h and the constants in this harness", "trees of at most 3 mobilized bodies",
                        "identical applied loads = uniform gravity + a point force and a torque on every body (+ mobility forces where both members share the generalized speeds: T1, T2, T4)",
                        "T3 is restricted to mobilizer kinds whose relative-motion family is direction-symmetric (a reversed Ellipsoid, Universal, BendStretch, SphericalCoords, LineOrientation, FreeLine, CantileverFreeBeam is a different physical joint); FunctionBased reversed is compared with the built-in reversed in T2",
-                       "tolerance 1e-11 (x cond(M) for accelerations, udot and reactions); the qdot-implied-motion oracle is a 4th-order finite difference with a Richardson pair, tolerance 1e-7"};
+                       "tolerance 1e-11 for kinematics, 1e-10 x cond(M) for accelerations, udot, qdotdot and reactions; the qdot-implied-motion oracle is a 4th-order finite difference with a Richardson pair, tolerance 1e-7"};
     std::vector<int> valueSets = th ? std::vector<int>{0, 1, 2} : std::vector<int>{(int)(((run.seed % 3) + 3) % 3)};
-    const int nMass = th ? 3 : 1; const int seedMass = (int)(((run.seed % 3) + 3) % 3);
+    // the variant's mass kind: quick = seed%3; thorough = (value set + seed)%3 so that all three kinds occur (companions always carry 0,1,2)
+    const int nMass = 1; const int seedMass = (int)(((run.seed % 3) + 3) % 3);
     mb::LevelA A; mb::LevelB B;
     auto variantOf = [](int64_t levelAIndex) { int role = (int)((levelAIndex / 9) % 4); return role == 0 ? 0 : role == 2 ? 2 : 1; };
     auto guarded = [&](const std::string& name, const std::string& desc, const std::function<void()>& fn) {
@@ -301,7 +305,7 @@ int main(int argc, char** argv) {
     auto t1 = [&](const std::string& name, int64_t nModels, std::function<std::vector<mb::BodySpec>(int64_t, int)> specsOf) {
         verif::Odometer od; od.dim("state", 4); od.dim("start", 2); od.dim("mass", nMass); od.dim("valueset", (int64_t)valueSets.size()); od.dim("model", nModels);
         run.parallel(name, od.size(), [&](int64_t idx) {
-            auto d = od.digits(idx); auto specs = specsOf(d[4], (d[2] + seedMass) % 3);
+            auto d = od.digits(idx); auto specs = specsOf(d[4], (d[2] + seedMass + (th ? valueSets[d[3]] : 0)) % 3);
             std::string desc = name + " " + od.describe(idx) + " " + specsStr(specs, d[1] == 1) + " vs=" + std::to_string(valueSets[d[3]]);
             guarded(name, desc, [&] { checkQuatEuler(run, specs, d[1] == 1, d[0], valueSets[d[3]], desc); });
             if (idx % 10007 == 0) run.sample(desc);
@@ -316,7 +320,7 @@ int main(int argc, char** argv) {
         for (int64_t i = 0; i < A.size(); ++i) { auto sp = A.specs(i, 0); if (pick(sp[variantOf(i)])) models.push_back(i); }
         verif::Odometer od; od.dim("state", 4); od.dim("coord", 2); od.dim("mass", nMass); od.dim("valueset", (int64_t)valueSets.size()); od.dim("model", (int64_t)models.size());
         run.parallel(name, od.size(), [&](int64_t idx) {
-            auto d = od.digits(idx); const int64_t mi = models[d[4]]; auto specs = A.specs(mi, (d[2] + seedMass) % 3);
+            auto d = od.digits(idx); const int64_t mi = models[d[4]]; auto specs = A.specs(mi, (d[2] + seedMass + (th ? valueSets[d[3]] : 0)) % 3);
             std::string desc = name + " " + od.describe(idx) + " levelA=" + std::to_string(mi) + " " + specsStr(specs, d[1] == 1) + " vs=" + std::to_string(valueSets[d[3]]);
             guarded(name, desc, [&] { check(specs, variantOf(mi), d[1] == 1, d[0], valueSets[d[3]], desc); });
             if (idx % 3001 == 0) run.sample(desc);
@@ -331,7 +335,7 @@ int main(int argc, char** argv) {
     auto t4 = [&](const std::string& name, int64_t nModels, std::function<std::vector<mb::BodySpec>(int64_t, int)> specsOf) {
         verif::Odometer od; od.dim("state", th ? 4 : 2); od.dim("reloc", 3); od.dim("coord", 2); od.dim("mass", nMass); od.dim("valueset", (int64_t)valueSets.size()); od.dim("model", nModels);
         run.parallel(name, od.size(), [&](int64_t idx) {
-            auto d = od.digits(idx); auto specs = specsOf(d[5], (d[3] + seedMass) % 3);
+            auto d = od.digits(idx); auto specs = specsOf(d[5], (d[3] + seedMass + (th ? valueSets[d[4]] : 0)) % 3);
             const int stateKind = th ? d[0] : 1 + d[0];       // quick: generic and large-angle states
             std::string desc = name + " " + od.describe(idx) + " " + specsStr(specs, d[2] == 1) + " st=" + std::to_string(stateKind) + " vs=" + std::to_string(valueSets[d[4]]);
             guarded(name, desc, [&] { checkRelocation(run, specs, d[1], d[2] == 1, stateKind, valueSets[d[4]], desc); });
